@@ -6,12 +6,11 @@
    checked against this specification on every run).  dist2 a b = |a - b|^2, norm2 a = |a|^2,
    tol2 tl r = (effective tolerance)^2 where a percentage tolerance is relative to a reference of squared norm r.
 
-   The sub-statements of the property that the faithful model VIOLATES carry `_refuted` theorems with the witness:
-     between   : a complex-typed value with zero imaginary part inside the bounds raises TypeError instead of being accepted
-     congruence: values congruent within tolerance across the end of the residue interval are rejected
-     span      : linearly dependent spanning vectors make lstsq return no residual, so every nonzero vector is accepted
-     linear    : no zero-compatible mode configured and a zero side: max() of an empty list raises;
-                 complex samples: sum(np.square(d)) is not |d|^2, e.g. expected + (1, i) is graded as equal *)
+   All sub-statements are positive theorems of the code as repaired by the fix commits 2b5e28f (between: np.real),
+   70bde6b (congruence: compares one modulus up and down), 8b36db6 (span: residual from the returned coefficients),
+   c7560ea (LinearComparer equals/offset: norm of the difference), 521d2fc (LinearComparer: no checkable mode -> no
+   credit); the earlier `_refuted` theorems about these defects are gone.  vector_span/phase take lstsq's returned
+   coefficients as an argument; completeness is stated under lstsq's contract `minimiser` (soundness needs nothing). *)
 From Coq Require Import ZArith QArith Qabs List Bool.
 From Verif.Lib Require Import QRound.
 From Verif.Model Require Import Result Comparers.
@@ -39,32 +38,26 @@ Proof. exact mag_close_root. Qed.
 (* ------------------------------------------------------------------------------------------ *)
 (* between_comparer: accepted iff real and within the closed bounds                             *)
 (* ------------------------------------------------------------------------------------------ *)
-(* full statement:  forall lo hi n, between_cmp lo hi n = CBool true <-> im n == 0 /\ lo <= re n <= hi
-   -- refuted below; what holds: the iff for float-typed values, soundness for all values *)
-Theorem C16_between_iff_partial : forall lo hi n,
-  between_cmp lo hi n = CBool true <-> exists x, n = NReal x /\ lo <= x <= hi.
-Proof. exact between_iff_float. Qed.
-
-Theorem C16_between_sound : forall lo hi n,
-  between_cmp lo hi n = CBool true -> snd (num_c n) == 0 /\ lo <= fst (num_c n) <= hi.
-Proof. exact between_sound. Qed.
+Theorem C16_between_iff : forall lo hi n,
+  between_cmp lo hi n = CBool true <-> (snd (num_c n) == 0 /\ lo <= fst (num_c n) <= hi).
+Proof. exact between_iff. Qed.
 
 Theorem C16_between_nonreal_rejected : forall lo hi a b, ~ b == 0 ->
   between_cmp lo hi (NCplx a b) = CRaise (XInputType MsgMustBeReal).
 Proof. exact between_nonreal. Qed.
 
-Theorem C16_between_iff_refuted :
-  ~ (forall lo hi n, between_cmp lo hi n = CBool true <-> (snd (num_c n) == 0 /\ lo <= fst (num_c n) <= hi)).
-Proof. exact between_iff_refuted. Qed.
-
 (* ------------------------------------------------------------------------------------------ *)
 (* congruence_comparer: accepted iff equal to the target modulo the modulus, within tolerance   *)
 (* ------------------------------------------------------------------------------------------ *)
-(* full statement (absolute tolerance): accepted <-> exists k : Z, |x - (t + k m)| <= tau  -- refuted below *)
-Theorem C16_congruence_sound : forall tl t m x, ~ m == 0 -> cong_accept tl t m x ->
-  tol_ok tl = true /\
-  exists k : Z, (x - (t + inject_Z k * m)) * (x - (t + inject_Z k * m)) <= tol2 tl (qmod t m * qmod t m).
-Proof. exact congruence_sound. Qed.
+Theorem C16_congruence_iff : forall tl t m x, ~ m == 0 ->
+  (cong_accept tl t m x <->
+   tol_ok tl = true /\
+   exists k : Z, (x - (t + inject_Z k * m)) * (x - (t + inject_Z k * m)) <= tol2 tl (qmod t m * qmod t m)).
+Proof. exact congruence_iff. Qed.
+
+Theorem C16_congruence_iff_abs : forall tau t m x, ~ m == 0 -> 0 <= tau ->
+  (cong_accept (TAbs tau) t m x <-> exists k : Z, Qabs (x - (t + inject_Z k * m)) <= tau).
+Proof. exact congruence_iff_abs. Qed.
 
 Theorem C16_congruence_shift_invariant : forall tl t m x k, ~ m == 0 ->
   (cong_accept tl t m (x + inject_Z k * m) <-> cong_accept tl t m x).
@@ -73,25 +66,6 @@ Proof. exact congruence_shift_invariant. Qed.
 Theorem C16_congruence_exact_members : forall tl t m k, ~ m == 0 -> tol_ok tl = true ->
   cong_accept tl t m (t + inject_Z k * m).
 Proof. exact congruence_exact_members. Qed.
-
-(* the exact class of the implementation: congruent within tolerance by a perturbation that stays inside the
-   residue interval [0, m) (or (m, 0] for a negative modulus) *)
-Theorem C16_congruence_iff_no_wrap : forall tl t m x, ~ m == 0 ->
-  (cong_accept tl t m x <->
-   tol_ok tl = true /\
-   exists (k : Z) (e : Q), x == t + inject_Z k * m + e /\ e * e <= tol2 tl (qmod t m * qmod t m)
-                           /\ in_residues m (qmod t m + e)).
-Proof. exact congruence_iff_no_wrap. Qed.
-
-Theorem C16_congruence_complete_away_from_wrap : forall tau t m x k, 0 < m -> 0 <= tau ->
-  Qabs (x - (t + inject_Z k * m)) <= tau -> tau <= qmod t m -> qmod t m + tau < m ->
-  cong_accept (TAbs tau) t m x.
-Proof. exact congruence_complete_away_from_wrap. Qed.
-
-Theorem C16_congruence_iff_refuted :
-  ~ (forall tau t m x, ~ m == 0 -> 0 <= tau ->
-       (cong_accept (TAbs tau) t m x <-> exists k : Z, Qabs (x - (t + inject_Z k * m)) <= tau)).
-Proof. exact congruence_iff_refuted. Qed.
 
 (* ------------------------------------------------------------------------------------------ *)
 (* eigenvector_comparer: a nonzero v with M v = lambda v, under any rescaling                   *)
@@ -132,23 +106,6 @@ Proof. intros ws v. split; [exact (cres2_min_lincomb ws v) | exact (cres2_attain
 (* ------------------------------------------------------------------------------------------ *)
 (* vector_span_comparer: a nonzero vector in the span, any complex coefficients                  *)
 (* ------------------------------------------------------------------------------------------ *)
-Theorem C16_span_model : forall d tl (ws : list cvec) (v : cvec), ws <> [] ->
-  Forall (fun w => length w = length v) ws ->
-  vector_span_cmp (Some d) tl lstsq_spec (map VVec ws) (VVec v) = span_core tl (lstsq_spec ws v) v.
-Proof. exact span_cmp_core. Qed.
-
-(* full statement: for ALL ws (of the input's length), accepted <-> not zero within tolerance /\ exists cs,
-   |v - sum cs_j ws_j| within tolerance  -- refuted below for dependent ws.  What holds is the statement for
-   linearly independent ws, any number of them (as many as the dimension: lstsq reports no residual, every nonzero
-   vector is accepted, and rightly so -- independent_vectors span everything, Proofs/ComparersDim.v). *)
-Theorem C16_span_iff_independent : forall tl ws v, tol_ok tl = true ->
-  (forall w, In w ws -> length w = length v) -> crank ws = length ws ->
-  (span_accept tl ws v <->
-   norm_le tl 0 (norm2 v) = false /\ tol_ok tl = true /\
-   exists cs : list C, dist2 v (lincomb cs ws) <= tol2 tl (norm2 v)).
-Proof. exact span_iff_independent. Qed.
-
-(* the model's rank never exceeds the dimension; with full rank equal to the dimension nothing is left over *)
 Theorem C16_rank_at_most_dimension : forall ws n, (forall w, In w ws -> (length w <= n)%nat) -> (crank ws <= n)%nat.
 Proof. exact crank_le_dim. Qed.
 
@@ -156,39 +113,50 @@ Theorem C16_full_rank_spans_everything : forall ws v n, (forall w, In w ws -> (l
   (length v <= n)%nat -> crank ws = n -> cres2 ws v == 0.
 Proof. exact full_rank_square_spans. Qed.
 
-Theorem C16_span_members : forall tl ws v cs, tol_ok tl = true -> norm_le tl 0 (norm2 v) = false ->
-  veq v (lincomb cs ws) -> span_accept tl ws v.
+Theorem C16_span_model : forall d tl lstsq (ws : list cvec) (v : cvec), ws <> [] ->
+  Forall (fun w => length w = length v) ws ->
+  vector_span_cmp (Some d) tl lstsq (map VVec ws) (VVec v) = span_core tl ws (lstsq ws v) v.
+Proof. exact span_cmp_core. Qed.
+
+(* FULL STATEMENT, for every family of spanning vectors -- dependent or not, any number of them -- under lstsq's
+   contract (the returned coefficients minimise the residual; such coefficients always exist) *)
+Theorem C16_span_iff : forall tl ws coeffs v, minimiser ws coeffs v ->
+  (span_accept tl ws coeffs v <->
+   norm_le tl 0 (norm2 v) = false /\ tol_ok tl = true /\
+   exists cs : list C, dist2 v (lincomb cs ws) <= tol2 tl (norm2 v)).
+Proof. exact span_iff. Qed.
+
+Theorem C16_span_minimiser_exists : forall ws v, exists coeffs, minimiser ws coeffs v.
+Proof. exact minimiser_exists. Qed.
+
+(* whatever lstsq returns, nothing outside the class is accepted *)
+Theorem C16_span_sound : forall tl ws coeffs v, span_accept tl ws coeffs v ->
+  norm_le tl 0 (norm2 v) = false /\ tol_ok tl = true /\
+  exists cs : list C, dist2 v (lincomb cs ws) <= tol2 tl (norm2 v).
+Proof. exact span_sound. Qed.
+
+Theorem C16_span_members : forall tl ws coeffs v cs, minimiser ws coeffs v -> tol_ok tl = true ->
+  norm_le tl 0 (norm2 v) = false -> veq v (lincomb cs ws) -> span_accept tl ws coeffs v.
 Proof. exact span_members. Qed.
-
-Theorem C16_span_rank_deficient_accepts_all : forall tl ws v, (crank ws < length ws)%nat ->
-  norm_le tl 0 (norm2 v) = false -> span_accept tl ws v.
-Proof. exact span_rank_deficient_accepts_all. Qed.
-
-Theorem C16_span_iff_refuted :
-  ~ (forall tl ws v, (length ws < length v)%nat ->
-       (span_accept tl ws v <->
-        norm_le tl 0 (norm2 v) = false /\ tol_ok tl = true /\
-        exists cs : list C, dist2 v (lincomb cs ws) <= tol2 tl (norm2 v))).
-Proof. exact span_iff_refuted. Qed.
 
 (* ------------------------------------------------------------------------------------------ *)
 (* vector_phase_comparer: the target times a unit-modulus phase                                  *)
 (* ------------------------------------------------------------------------------------------ *)
-Theorem C16_phase_model : forall d tl t v, length v = length t ->
-  vector_phase_cmp (Some d) tl lstsq_spec [VVec t] (VVec v) = CBool (phase_decision tl t v).
+Theorem C16_phase_model : forall d tl lstsq (t v : cvec), length v = length t ->
+  vector_phase_cmp (Some d) tl lstsq [VVec t] (VVec v) = CBool (phase_decision tl t (lstsq [t] v) v).
 Proof. exact phase_cmp_decision. Qed.
 
-Theorem C16_phase_iff_exact : forall t v, 0 < norm2 t -> (1 < length v)%nat ->
-  (phase_decision (TAbs 0) t v = true <-> exists u : C, cabs2 u == 1 /\ veq v (cvscale u t)).
+Theorem C16_phase_iff_exact : forall t coeffs v, minimiser [t] coeffs v -> 0 < norm2 t ->
+  (phase_decision (TAbs 0) t coeffs v = true <-> exists u : C, cabs2 u == 1 /\ veq v (cvscale u t)).
 Proof. exact phase_iff_exact. Qed.
 
-Theorem C16_phase_members : forall tl t v u, tol_ok tl = true -> cabs2 u == 1 -> veq v (cvscale u t) ->
-  phase_decision tl t v = true.
+Theorem C16_phase_members : forall tl t coeffs v u, minimiser [t] coeffs v -> tol_ok tl = true -> cabs2 u == 1 ->
+  veq v (cvscale u t) -> phase_decision tl t coeffs v = true.
 Proof. exact phase_members. Qed.
 
 (* within tolerance: full statement would be accepted <-> exists unit u, |v - u t| <= tol; the implementation
    tests distance to the complex line and the magnitudes separately, each with its own tolerance: *)
-Theorem C16_phase_sound_partial : forall tl t v, 0 < norm2 t -> (1 < length v)%nat -> phase_decision tl t v = true ->
+Theorem C16_phase_sound_partial : forall tl t coeffs v, phase_decision tl t coeffs v = true ->
   tol_ok tl = true /\ mag_close (norm2 t) (norm2 v) (tol2 tl (norm2 t)) = true /\
   (norm_le tl 0 (norm2 v) = true \/ exists c : C, dist2 v (cvscale c t) <= tol2 tl (norm2 v)).
 Proof. exact phase_sound. Qed.
@@ -237,17 +205,23 @@ Theorem C16_linear_best_mode : forall tl cfg ss g mk,
   linear_cmp None tl cfg ss = CDict g mk ->
   let ms := valid_modes cfg (comparing_zero tl ss) in
   (forall m, In m ms -> holds tl ss m -> credit_or_0 cfg m <= g) /\
-  ((exists m, In m ms /\ holds tl ss m /\ g = credit_or_0 cfg m) \/
-   (g = 0 /\ exists m, In m ms /\ ~ holds tl ss m)).
+  0 <= g /\
+  (g = 0 \/ exists m, In m ms /\ holds tl ss m /\ g = credit_or_0 cfg m).
 Proof. exact linear_best_mode. Qed.
 
+(* no proportional or linear credit when either side is zero: the result is that of the comparer with these two
+   modes switched off, and a result (possibly without credit) is always returned *)
 Theorem C16_linear_zero_rule : forall dv tl cfg ss, comparing_zero tl ss = true ->
   linear_cmp dv tl cfg ss = linear_cmp dv tl (mkL (l_equals cfg) None (l_offset cfg) None) ss.
 Proof. exact linear_zero_rule. Qed.
 
-(* what "the relation holds" means (x = student samples, y = expected samples, flattened) *)
-Theorem C16_equals_holds_iff_real : forall tl ref2 (x y : cvec), real_vec x -> real_vec y -> 0 <= ref2 ->
-  (mode_holds tl ref2 x y LEquals = Some true <-> tol_ok tl = true /\ dist2 x y <= tol2 tl ref2).
+Theorem C16_linear_zero_total : forall tl cfg ss, (3 <= length ss)%nat -> comparing_zero tl ss = true ->
+  exists g, linear_cmp None tl cfg ss = CDict g MsgOther.
+Proof. exact linear_zero_total. Qed.
+
+(* what "the relation holds" means (x = student samples, y = expected samples, flattened; complex samples included) *)
+Theorem C16_equals_holds_iff : forall tl ref2 (x y : cvec),
+  mode_holds tl ref2 x y LEquals = Some true <-> tol_ok tl = true /\ dist2 x y <= tol2 tl ref2.
 Proof. exact equals_holds_iff. Qed.
 
 Theorem C16_proportional_holds_iff : forall tl ref2 (x y : cvec), vzero x = false ->
@@ -255,26 +229,15 @@ Theorem C16_proportional_holds_iff : forall tl ref2 (x y : cvec), vzero x = fals
    tol_ok tl = true /\ exists a : C, dist2 y (cvscale a x) <= tol2 tl ref2).
 Proof. exact proportional_holds_iff. Qed.
 
-Theorem C16_offset_holds_iff_real : forall x y : cvec, real_vec x -> real_vec y -> length x = length y ->
-  (0 < length x)%nat -> forall tl ref2, 0 <= ref2 ->
+Theorem C16_offset_holds_iff : forall x y : cvec, length x = length y -> (0 < length x)%nat -> forall tl ref2,
   (mode_holds tl ref2 x y LOffset = Some true <->
-   tol_ok tl = true /\ exists b : Q, dist2 (vadd x (vscale b (ones (length x)))) y <= tol2 tl ref2).
+   tol_ok tl = true /\ exists b : C, dist2 (vadd x (cvscale b (ones (length x)))) y <= tol2 tl ref2).
 Proof. exact offset_holds_iff. Qed.
 
 Theorem C16_linear_holds_iff : forall tl ref2 (x y : cvec), Nat.eqb (crank [ones (length x); x]) 1 = false ->
   (mode_holds tl ref2 x y LLinear = Some true <->
    tol_ok tl = true /\ exists a b : C, dist2 y (vadd (cvscale a x) (cvscale b (ones (length x)))) <= tol2 tl ref2).
 Proof. exact linear_holds_iff. Qed.
-
-Theorem C16_linear_zero_rule_refuted :
-  ~ (forall tl cfg ss, (3 <= length ss)%nat -> comparing_zero tl ss = true ->
-       exists g mk, linear_cmp None tl cfg ss = CDict g mk).
-Proof. exact linear_zero_rule_refuted. Qed.
-
-Theorem C16_linear_equals_complex_refuted :
-  ~ (forall tl ref2 x y, 0 <= ref2 ->
-       (mode_holds tl ref2 x y LEquals = Some true <-> tol_ok tl = true /\ dist2 x y <= tol2 tl ref2)).
-Proof. exact linear_equals_complex_refuted. Qed.
 
 (* ------------------------------------------------------------------------------------------ *)
 (* wrong shapes are reported according to the mismatch policy, never graded                      *)
@@ -319,17 +282,21 @@ Proof. exact (conj default_credits_bridge all_modes_bridge). Qed.
 (* ------------------------------------------------------------------------------------------ *)
 Definition ex_w1 : cvec := [(1, 0); (1, 0); (0, 0)].
 Definition ex_w2 : cvec := [(0, 0); (1, 0); (2, 0)].
-(* 2 w1 + 3i w2 = [2, 2+3i, 6i] is accepted, [2, 2+3i, 6] is not; the hypotheses of C16_span_iff_independent hold *)
+(* 2 w1 + 3i w2 = [2, 2+3i, 6i] is accepted with the coefficients (2, 3i), which are a minimiser; [2, 2+3i, 6] is
+   rejected (shown with the same coefficients; by C16_span_sound no coefficients can make it accepted).
+   Formerly refuted: the dependent vectors [1,1,0],[2,2,0] no longer accept [0,0,1] *)
 Example C16_ex_span :
-  crank [ex_w1; ex_w2] = length [ex_w1; ex_w2] /\
-  span_core (TPct (1 # 10000)) (lstsq_spec [ex_w1; ex_w2] [(2, 0); (2, 3); (0, 6)]) [(2, 0); (2, 3); (0, 6)] = CBool true /\
-  span_core (TPct (1 # 10000)) (lstsq_spec [ex_w1; ex_w2] [(2, 0); (2, 3); (6, 0)]) [(2, 0); (2, 3); (6, 0)] = CBool false.
+  minimiser [ex_w1; ex_w2] [(2, 0); (0, 3)] [(2, 0); (2, 3); (0, 6)] /\
+  span_core (TPct (1 # 10000)) [ex_w1; ex_w2] [(2, 0); (0, 3)] [(2, 0); (2, 3); (0, 6)] = CBool true /\
+  span_core (TPct (1 # 10000)) [ex_w1; ex_w2] [(2, 0); (0, 3)] [(2, 0); (2, 3); (6, 0)] = CBool false /\
+  minimiser [[(1, 0); (1, 0); (0, 0)]; [(2, 0); (2, 0); (0, 0)]] [(0, 0); (0, 0)] [(0, 0); (0, 0); (1, 0)] /\
+  span_core (TPct (1 # 10000)) [[(1, 0); (1, 0); (0, 0)]; [(2, 0); (2, 0); (0, 0)]] [(0, 0); (0, 0)] [(0, 0); (0, 0); (1, 0)] = CBool false.
 Proof. vm_compute. repeat split. Qed.
 
 (* phase: (3+4i)/5 * [1, i] accepted, 2 * [1, i] rejected *)
 Example C16_ex_phase :
-  phase_decision (TPct (1 # 10000)) [(1, 0); (0, 1)] [(3 # 5, 4 # 5); (- (4 # 5), 3 # 5)] = true /\
-  phase_decision (TPct (1 # 10000)) [(1, 0); (0, 1)] [(2, 0); (0, 2)] = false.
+  phase_decision (TPct (1 # 10000)) [(1, 0); (0, 1)] [(3 # 5, 4 # 5)] [(3 # 5, 4 # 5); (- (4 # 5), 3 # 5)] = true /\
+  phase_decision (TPct (1 # 10000)) [(1, 0); (0, 1)] [(2, 0)] [(2, 0); (0, 2)] = false.
 Proof. vm_compute. split; reflexivity. Qed.
 
 (* [[2,1],[1,2]] with eigenvalue 3: (1+i)*[1,1] accepted, [1,-1] and [0,0] rejected *)
@@ -360,7 +327,7 @@ Proof. vm_compute. repeat split. Qed.
 
 (* shape policy: a scalar where a vector of length 3 is expected *)
 Example C16_ex_shape :
-  let s := mkS [VVec ex_w1; VVec ex_w2] (VNum (NReal 5)) None in
+  let s := mkS [VVec ex_w1; VVec ex_w2] (VNum (NReal 5)) [] in
   grade (GMatrix (mkPolicy false true DType)) (TPct (1 # 10000)) CmpSpan 1 0 [s]
     = ORaise (XInputType (MsgShape (SMExpected 1 [] 0 [] false))) /\
   grade (GMatrix (mkPolicy false false DShape)) (TPct (1 # 10000)) CmpSpan 1 0 [s]
@@ -368,9 +335,17 @@ Example C16_ex_shape :
   grade (GMatrix (mkPolicy true true DShape)) (TPct (1 # 10000)) CmpSpan 1 0 [s] = ORes OkFalse 0 MsgNone.
 Proof. vm_compute. repeat split. Qed.
 
-(* congruence: the wrap-around witness, and an accepted shift *)
+(* the former wrap-around witness is accepted now; a value 1/5 away is not *)
 Example C16_ex_congruence :
-  congruence_cmp (TAbs (1 # 10)) 0 1 (NReal (- (1 # 100))) = CBool false /\
+  congruence_cmp (TAbs (1 # 10)) 0 1 (NReal (- (1 # 100))) = CBool true /\
   congruence_cmp (TAbs (1 # 10)) 0 1 (NReal (1 # 100)) = CBool true /\
-  congruence_cmp (TAbs (1 # 10)) (1 # 2) 1 (NReal (7 # 2)) = CBool true.
+  congruence_cmp (TAbs (1 # 10)) (1 # 2) 1 (NReal (7 # 2)) = CBool true /\
+  congruence_cmp (TAbs (1 # 10)) 0 1 (NReal (- (1 # 5))) = CBool false.
+Proof. vm_compute. repeat split. Qed.
+
+(* the former defects of between and LinearComparer, now behaving as the property says *)
+Example C16_ex_repaired :
+  between_cmp 1 3 (NCplx 2 0) = CBool true /\
+  linear_cmp None (TPct (1 # 10000)) lc_zero_cfg lc_zero_samples = CDict 0 MsgOther /\
+  linear_cmp None (TPct (1 # 10000)) (mkL (Some 1) (Some (1 # 2)) None None) lc_cplx_samples = CDict 0 MsgOther.
 Proof. vm_compute. repeat split. Qed.
